@@ -11,6 +11,8 @@ import UnytModel.DriverBase
 import UnytModel.ResultClass
 import UnytModel.Generated.C16Tables
 import UnytModel.Ref.C16
+import UnytModel.C16CoerceProg
+import UnytModel.Generated.C16Coerce
 
 namespace Unyt
 namespace C16Wire
@@ -140,6 +142,18 @@ def parseCoItems (s : String) : Option (List (CoItem Float)) :=
       some ⟨v, sc, o, d⟩
     | _ => none)
 
+/-- `v~scale~offset~dim~kind|…` (the element's `dtype.kind` as its NumPy letter) -/
+def parseCoElems (s : String) : Option (List (CoProg.CoElem Float)) :=
+  (s.splitOn "|").mapM (fun item =>
+    match item.splitOn "~" with
+    | [v, sc, o, d, k] => do
+      let v ← fb v
+      let sc ← fb sc
+      let o ← fb o
+      let d ← Dim.parse d
+      some ⟨⟨v, sc, o, d⟩, CoProg.DKind.parse k⟩
+    | _ => none)
+
 def unitNeFloat (a b : CoItem Float) : Bool :=
   !(Float.isclose a.scale b.scale && Float.isclose a.offset b.offset && a.dim == b.dim)
 
@@ -229,6 +243,14 @@ def stepC16 (fields : List String) : Option String :=
       | .ok (vals, some ff) => s!"ok\t{bitsStr ff.scale}\t{bitsStr ff.offset}\t{ff.dim.str}\t{",".intercalate (vals.map bitsStr)}"
       | .ok (_, none) => "ok\tempty"
       | .error e => s!"err\t{e.str}")
+  | ["c16.coerceprog", items] => do
+    -- `_coerce_iterable_units` as the program REGENERATED from the live source (C16CoerceProg.lean)
+    let items ← parseCoElems items
+    some (match CoProg.coerceProg Generated.c16CoerceProg unitNeFloat items with
+      | .ok (vals, some ff) => s!"ok\t{bitsStr ff.scale}\t{bitsStr ff.offset}\t{ff.dim.str}\t{",".intercalate (vals.map bitsStr)}"
+      | .ok (_, none) => "ok\tnolabel"
+      | .error e => s!"err\t{e.str}")
+  | ["c16.coerceprog.ok"] => some s!"ok\t{CoProg.progOk Generated.c16CoerceProg}"
   | ["c16.accessor", name] =>
     some (match Generated.c16Accessors.find? (·.1 == name) with
       | some (_, rel, cls) => s!"ok\t{rel.str}\t{cls}"
